@@ -458,7 +458,7 @@ def run(chk: Check) -> int:
     chk.log("proofs done")
 
     quick = chk.quick
-    per_family = 24 if quick else 700
+    per_family = 32 if quick else 700
     budget = 4000 if quick else 12000
     modes = ["seq1", "seqn", "shuffle"]
     ctx = mp.get_context("fork")
